@@ -143,7 +143,9 @@ def run(ctx):
         ctx.check(not fs, P, "off-arm|" + b.id, "%s: with use_cache false nothing touches the filesystem" % b.id.split("::")[-1], b.where(bb))
     # ---- R3 ----------------------------------------------------------------------------------
     from . import c02, c01
-    c02.rule_lock_read(ctx, facts, prefix="C16-R3/C02")
+    from .c08 import _Sub as _Sub2
+    # (the reader's treatment of I/O errors is C02's matter: C16 promises the fallback only for an unparsable lock)
+    c02.rule_lock_read(_Sub2(ctx, "C16-R3/C02", only=("some-source", "parse-error-some", "odd-return", "some-count", "anchor")), facts, prefix="C16-R3/C02")
     c01.rule_start_value(ctx, facts, prefix="C16-R3/C01")
     # the context's cached value is exactly what the reader returned
     cn = facts.one(r"config::context::Context::new$")
@@ -309,6 +311,11 @@ def run(ctx):
                             tt, ft = ft, tt
                         rets = [st for (rb, st) in return_values_r(nw) if rb in cfg.reach_t(nw, ft)]
                         ctx.check(bool(rets) and all(s["rv"].get("variant") == "None" for s in rets), P, "find-false-none", "find() == false makes CodeFinder::new return None", nw.where(bb))
+    # "an inserting edit run writes the lock and later runs start from it": a failed write is only logged and the run
+    # exits 0 with the old value in place (same construct as C02-R6)
+    from . import c02 as _c02
+    from .c07 import _OnlyPrefix
+    _c02.rule_lock_atomic(_OnlyPrefix(ctx, "C16-R5", ("failure-ignored|",)), facts, prefix="C16-R5")
     from .c18 import rule_interrupted_nonzero
     from .c08 import _Sub
     rule_interrupted_nonzero(_Sub(ctx, "C16-R4", only=("dispatch",)), facts)
